@@ -19,6 +19,24 @@ SEED = int(os.environ.get('VERIF_SEED', '1') or 1)
 NCPU = os.cpu_count() or 4
 
 
+def _tlc_command():
+    """`tlc` is a shell wrapper around `java ... tlc2.TLC`; the Java MAIN thread only gets a big stack when -Xss is on
+    the java command line (JAVA_TOOL_OPTIONS reaches the other threads only), and TLC evaluates constant definitions --
+    here: the PEG interpreter on whole pools of paths -- in the main thread.  So call java directly with the wrapper's
+    class path."""
+    try:
+        w = open(shutil.which('tlc')).read()
+        m = re.search(r'-cp\s+(\S+)\s+tlc2\.TLC', w)
+        if m:
+            return ['java', '-Xss512m', '-XX:+UseParallelGC', '-cp', m.group(1), 'tlc2.TLC']
+    except Exception:
+        pass
+    return ['tlc']
+
+
+TLC = _tlc_command()
+
+
 class Infra(Exception):
     pass
 
@@ -77,7 +95,7 @@ def write_cfg(path, spec='Spec', constants=None, invariants=(), properties=(), e
 
 
 def tlc_cmd(sdir, module, cfg, workers=None, simulate=None, depth=None, extra=()):
-    cmd = ['tlc', '-workers', str(workers or NCPU), '-metadir', os.path.join(sdir, 'meta-' + module + '-' + os.path.basename(cfg)),
+    cmd = TLC + ['-workers', str(workers or NCPU), '-metadir', os.path.join(sdir, 'meta-' + module + '-' + os.path.basename(cfg)),
            '-config', cfg, '-seed', str(SEED)]
     if simulate:
         cmd += ['-simulate', 'num=%d' % simulate, '-depth', str(depth or 10)]
